@@ -72,7 +72,8 @@ def handle (op : Json) : R Json := do
     let file ← hexFld op "file"
     let line := natD op "line" 0
     let d := boolD op "defined" true
-    return obj [("trimmed", jhex (trimmedPath d file line)), ("full", jhex (fullPath d file line))]
+    return obj [("trimmed", jhex (trimmedPath d file line)), ("full", jhex (fullPath d file line)),
+                ("enc_short", jhex (trimmedPath d file line)), ("enc_full", jhex (fullPath d file line))]
   | "site" | "diag" =>
     let fe ← str op "fe"
     let lvlP := intD op "lvl" 0
